@@ -317,6 +317,30 @@ def r3_sequences(report, repo, rule='C02-R3', only_abortable=False):
 
   # teardown sequence
   f = repo.func(TE, 'TestExecutor._execute_teardown_sequence')
+
+  def cl_td(expr, steps):
+    if lib.is_call_to(expr, name='self._full_abort.is_set'):
+      return 'full_abort'
+    return None
+
+  def sp_td(v, p):
+    if p.end != 'exit':
+      return None
+    iterated = any(l == 'iter' for n, l in p.steps if n.kind == 'for')
+    n_exec = len(p.calls(name='self._execute_node'))
+    if not iterated:
+      return None if n_exec == 0 else 'empty-row: node executed without one'
+    if v['full_abort']:
+      if n_exec:
+        return 'full-abort-row: a teardown node runs after the second abort'
+      if not ends_with(_ret_name(p) or '', '_ExecutorReturn.TERMINAL'):
+        return 'full-abort-row: must return TERMINAL'
+      return None
+    if n_exec != 1:
+      return 'run-row: every teardown node is executed exactly once'
+    return None
+
+  lib.decision_table(report, rule, f, ['full_abort'], cl_td, sp_td)
   fors = [n for n in walk_no_nested(f.node) if isinstance(n, ast.For)]
   report.expect_instances(rule, len(fors), 1, 'teardown node loops')
   loop = fors[0]
